@@ -336,7 +336,31 @@ func (e *Engine) checkProperty(prop string, o runOpts) int {
 				}
 			}
 		}
-		au := e.auditConverters()
+	}
+	if prop == "C12" || prop == "C05" {
+		var au auditResult
+		auditName, auditSrc := "converter_audit", auditTest
+		if prop == "C12" {
+			au = e.auditConverters()
+		} else {
+			au = e.auditEquality()
+			auditName, auditSrc = "equality_audit", audit05Test
+		}
+		// a failure listed as a finding (obligation=bounded-audit#<text before the first ':'>) is reported as such
+		var open []string
+		for _, f := range au.Failures {
+			key := f
+			if i := strings.Index(f, ":"); i > 0 {
+				key = f[:i]
+			}
+			if kf := matchKnown(kfs, prop, "bounded-audit#"+strings.ReplaceAll(key, " ", "_")); kf != nil {
+				known++
+				lines = append(lines, fmt.Sprintf("KNOWN-FINDING: property=%s bounded audit: %s (%s)", prop, f, kf.What))
+				continue
+			}
+			open = append(open, f)
+		}
+		au.Failures = open
 		bounded = map[string]any{"label": "bounded", "what": au.summary(), "checks": au.Cases, "values": au.Values, "failures": au.Failures}
 		fmt.Println("gvc: " + au.summary() + " (bounded stand-in, not counted as proved)")
 		if len(au.Failures) > 0 {
@@ -347,8 +371,8 @@ func (e *Engine) checkProperty(prop string, o runOpts) int {
 			}
 			dir := filepath.Join(outDir, "replays", prop)
 			os.MkdirAll(dir, 0o755)
-			path := filepath.Join(dir, "converter_audit.json")
-			data, _ := json.MarshalIndent(map[string]any{"property": prop, "obligation": "bounded-audit#converters", "failures": au.Failures, "output": truncate(au.Output, 6000), "go_test": auditTest}, "", " ")
+			path := filepath.Join(dir, auditName+".json")
+			data, _ := json.MarshalIndent(map[string]any{"property": prop, "obligation": "bounded-audit#" + auditName, "failures": au.Failures, "output": truncate(au.Output, 6000), "go_test": auditSrc}, "", " ")
 			os.WriteFile(path, data, 0o644)
 			lines = append(lines, fmt.Sprintf("VIOLATION property=%s replay=%s", prop, path))
 			for _, f := range au.Failures {
